@@ -179,14 +179,14 @@ where
         let num_steps = (dist / (space.get_longest_valid_segment_length() * 0.1)).ceil() as usize;
 
         if num_steps <= 1 {
-            return vc.is_valid(to);
+            return space.satisfies_bounds(to) && vc.is_valid(to);
         }
 
         let mut interpolated_state = from.clone();
         for i in 1..=num_steps {
             let t = i as f64 / num_steps as f64;
             space.interpolate(from, to, t, &mut interpolated_state);
-            if !vc.is_valid(&interpolated_state) {
+            if !space.satisfies_bounds(&interpolated_state) || !vc.is_valid(&interpolated_state) {
                 return false;
             }
         }
